@@ -428,6 +428,26 @@ pub fn map_space(tb: &Tables, tier: Tier) -> Vec<Maps> {
         }
         out.push(Maps { v: (0..nv).map(|i| (i, same.clone())).collect(), o: (0..no).map(|i| (i, same.clone())).collect(), q: (0..nq).map(|i| (i, same.clone())).collect() });
     }
+    // relations between the line values of one file: runs of adjacent lines (2, 3, 5, two runs), the lines 0 / 1 / i32::MAX,
+    // every pattern once
+    {
+        let runs: Files = vec![
+            ("Config.sol".into(), [7, 8, 9].into_iter().collect()),
+            ("Run.sol".into(), [1, 2, 3, 4, 5, 9, 10, 11, 12].into_iter().collect()),
+            ("Pair.sol".into(), [3, 4].into_iter().collect()),
+            ("Edge.sol".into(), [0, 1, i32::MAX - 1, i32::MAX].into_iter().collect()),
+        ];
+        for i in 0..nv {
+            out.push(Maps { v: vec![(i, runs.clone())], o: vec![], q: vec![] });
+        }
+        for i in 0..no {
+            out.push(Maps { v: vec![], o: vec![(i, runs.clone())], q: vec![] });
+        }
+        for i in 0..nq {
+            out.push(Maps { v: vec![], o: vec![], q: vec![(i, runs.clone())] });
+        }
+        out.push(Maps { v: (0..nv).map(|i| (i, runs.clone())).collect(), o: (0..no).map(|i| (i, runs.clone())).collect(), q: (0..nq).map(|i| (i, runs.clone())).collect() });
+    }
     // all 8 presence combinations of the three categories (through generate_report)
     for mask in 0u32..8 {
         for var in 0..(if tier == Tier::Quick { 4 } else { 16 }) {
